@@ -602,6 +602,72 @@ def run(ctx):
     r9 = ctx.rule("C14.R9", "a session that has hung up or was reset is still `readable`: the predicate that gates the session's read answers true whenever POLLIN is reported")
     check_readable_predicate(P, r9)
 
+    # ------------------------------------------------------------------ R10
+    r10 = ctx.rule("C14.R10", "the control file removed at close is the one that was bound: its name is not recomputed from the process id or the environment")
+    check_unlink_name(P, r10)
+
+
+def check_unlink_name(P, rule):
+    """the name of a socket's control file is made of the XCM_CTL directory and the pid of the process that created the
+    socket.  Both can differ when the socket is closed (the documented fork pattern: the child closes what the parent
+    created and cleaned up; an application that changes its environment): a name recomputed at close is another file's
+    name and the real one stays for ever.  Nothing reachable from the function that unlinks (direct calls) reads the
+    process id or the environment; the name comes from the descriptor (getsockname) or from what was stored."""
+    un = [f for f in P.functions if f.file.endswith("ctl/ctl.c") and any(True for _ in f.calls("unlink")) and not any(True for _ in f.calls("bind"))]
+    if not un:
+        raise Broken("C14.R10: no unlink() outside the creating function in ctl.c")
+    SRC = {"getpid", "getppid", "getenv", "secure_getenv"}
+
+    def root_var(fn, nid):
+        for x in fn.walk(nid):
+            m = fn.nodes[x]
+            if m["k"] == "ref" and m.get("dk") in ("local", "param"):
+                return m.get("did")
+        return None
+
+    def reads_src(g0):
+        seen, work = {g0}, [g0]
+        while work:
+            g = work.pop()
+            for c in g.calls():
+                nm = g.nodes[c].get("callee") or ""
+                if nm in SRC:
+                    return (g, c, nm)
+                d = P.resolve_direct(g, nm) if nm else None
+                if d is not None and d not in seen and d.file.startswith(("libxcm/", "common/")) and not d.file.endswith("core/log.c"):
+                    seen.add(d)
+                    work.append(d)
+        return None
+    for f in un:
+        for u in f.calls("unlink"):
+            rule.instance("%s: %s" % (f.qname, f.show(u)[:50]))
+            rv = root_var(f, f.nodes[u]["args"][0])
+            hit = None
+            nwr = 0
+            for c in f.calls():
+                if c == u or rv is None:
+                    continue
+                n = f.nodes[c]
+                if not any(root_var(f, a) == rv and f.nodes[f._strip0(a)]["k"] != "int" for a in n["args"]):
+                    continue
+                nm = n.get("callee") or ""
+                if nm.startswith(("__log", "log_")):
+                    continue
+                nwr += 1
+                for a in n["args"]:
+                    for x in f.walk(a):
+                        if f.nodes[x]["k"] == "call" and (f.nodes[x].get("callee") or "") in SRC:
+                            hit = hit or (f, x, f.nodes[x]["callee"])
+                d = P.resolve_direct(f, nm) if nm else None
+                if d is not None:
+                    hit = hit or reads_src(d)
+            if hit:
+                g, c, nm = hit
+                rule.violation("%s:name-recomputed:%s" % (f.name, nm), "%s removes a control file whose name it builds anew with %s() (in %s): after a fork, or with XCM_CTL "
+                               "changed, that is not the file the socket is bound to, which is then never removed" % (f.name, nm, g.name), loc=g.loc(c))
+            else:
+                rule.ok("%s: what fills the name given to unlink() (%d call(s)) reads neither the process id nor the environment" % (f.qname, nwr), "origin of the buffer over direct calls")
+
 
 def check_readable_predicate(P, rule):
     """the control server reads a session only when ut_is_readable() says so, and a failing read is the only way a dead
